@@ -15,7 +15,8 @@ elab "#audit_module " id:ident : command => do
     if env.getModuleIdxFor? n == some modIdx then
       match ci with
       | .thmInfo _ =>
-        if !n.isInternal then names := names.push n
+        -- only theorems written in the source (auto-generated equation lemmas have no range)
+        if !n.isInternal && (← findDeclarationRanges? n).isSome then names := names.push n
       | _ => pure ()
   let sorted := names.qsort (fun a b => a.toString < b.toString)
   for n in sorted do
